@@ -17,6 +17,8 @@ JSON_REPLY = {
 }
 DATA_ENDPOINTS = {'dropbox': 'upload-append', 'yandex': 'upload-put', 'google': 'session-put'}
 RENAME = {'dropbox': 'move', 'yandex': 'move', 'google': 'patch'}
+# the replies that carry the provider's checksum of what it received
+CHECKSUM_REPLY = {'dropbox': 'upload-finish', 'yandex': 'stat', 'google': 'get-file'}
 FAULT_KINDS = ['status', 'text', 'badjson', 'noheader', 'reset-before', 'reset-inside', 'corrupt', 'rename-fail']
 
 
@@ -39,6 +41,9 @@ def model_resp(provider, endpoint, kind):
         return 'corrupt' if endpoint == DATA_ENDPOINTS[provider] else 'ok'
     if kind == 'badjson':
         return 'lost' if endpoint in JSON_REPLY[provider] else 'ok'
+    if kind == 'nofield':
+        # (only aimed at the checksum-carrying reply: a well-formed JSON object without the checksum field)
+        return 'lost' if endpoint == CHECKSUM_REPLY[provider] else 'ok'
     if kind == 'noheader':
         if provider == 'google' and endpoint == 'session-start':
             return 'lost'          # no Location header
